@@ -12,744 +12,841 @@ Definition show_fres (r : fres) : string :=
   end.
 Definition check (rs : list rune) : string := digest (show_fres (format_res rs)).
 Definition full (rs : list rune) : string := show_fres (format_res rs).
-Eval vm_compute in ("<<<M5>>>" ++ check (runes_of_ascii "MetaData  asx {char[] MetaDataX ,
-lengthOf Z9_	, crc
-    Foo ,char[ 4294967296]
-BodyLength , Foo leftPad `doc`, tag // a // b
-u128 , } root packet
-    stringy { // trailing space 
-match Header as
-    repeatCount	{ [ ""{,}""] :
-Header
-/// triple
-//
-,255 :repeatCount , 00 :pack, 1 : trueish
-    , 7
-    : A }
-    ,
-T
-    {Z9_
-`
-` ,
-} ,
-    int16 o
-@calculatedFrom(
-""it's""
-) `line1
-line2`	, match zchar
-as As{ ""CRC32"" :	a1, 42: Header [ 10
-    //
-    ] : zchar // trailing space 
-,
-    }// " ++ [128512]%N ++ runes_of_ascii " emoji
-, @tag( 42 )repeat i64_{
-    // c
-    char[00 ] _x `{ , }` ,
-}
-,repeat //x
-char[] uint8x
-`crlf
-line` ,@leftPad
-(	'\x00'
-    ) @tag( 7 )
-    int32
-// a // b
-// @lengthOf(
-repeatCount
-    @calculatedFrom(
-""x y"" )
-`// not a comment` , u32 zchar
-    `
-` , repeat stringy { i8i8 lengthOf
-, } , // packet A { u8 x, }
-@calculatedFrom(  ""abc"" ) @lengthOf( tag ) @lengthOf( /// triple
-rootA )  char[3	] // c
-rootA`" ++ [233]%N ++ runes_of_ascii "` ,// c
-}MetaData crc
-{
-float32
-asx `" ++ [233]%N ++ runes_of_ascii "` ,	string i64_// " ++ [128512]%N ++ runes_of_ascii " emoji
-,
-    }
-root packet Packet
-    //
-    {charz @lengthOf( zchar) ,	f32
-    f32a `{ , }` // a // b
-, i64 matchKey @lengthOf( leftPad )
-    , string trueish, @leftPad (  '0')
-    // trailing space 
-    tag@lengthOf( // a // b
-string_ ) `doc` , match stringy
-// @lengthOf(
-// @lengthOf(
-as calculatedFrom
-    { [
-0123456789 ]: repeatCount
-//	t
-//
-,} ,// trailing space 
-char[
-3]
-Header ,
-int64 MetaDataX
-,	@leftPad( ) len { packetx @lengthOf(chars ) `` ,
-    }, @rightPad ( '0'
-    )  x_y_z
-,
-} options{ rootA
-// packet A { u8 x, }
-//x
-= '0'
-; Foo =char
-    ;A
-    = zchar[ 0123456789 ]
-// " ++ [27880; 37322]%N ++ runes_of_ascii "
-//x
-;packetx = """ ++ [233]%N ++ runes_of_ascii "t" ++ [233]%N ++ runes_of_ascii """
-float = true } //x")).
-Eval vm_compute in ("<<<M1492>>>" ++ check (runes_of_ascii "options {
-    // c1
-    FixedStringPadFromLeft = true;
-    FixedStringPadChar = '0';// c9a
-}// c10
-
-packet Leg {
-    repeat InSym93 {
-        zchar[3] Acct,// c21a
-        // c21b
-        string Side2,// c24a
-        // c24b
-        i32 Flags,
-        // c27
-        f32 Note,
-        i32 msgKind,
-    },// c35
-    f64 Note,
-    // c38
-    uint16 Px,// c41
-}
-
-packet Quote {
-    zchar[2] OrderId,
-}
-
-// c51
-packet Ack {
-    // c54
-    repeat string lastPx,
-    zchar[4] price,// c63
-    uint32 OrderId,
-    Quote,
-    int8 Acct,
-}
-
-packet Fill {
-    // c75
-    repeat Leg,// c78a
-    @rightPad('0')
-    // c82a
-    // c82b
-    char[11] Note,
-    // c87
-    f64 Px,// c90
-    @rightPad('\x00')
-    // c94
-    char[5] Flags,
-    zchar[9] x,// c104
-    string msgKind,// c107
-}
-
-// c108
-root packet Order {
-    Leg,// c114
-    repeat Ack,// c117
-    @rightPad('\x00')
-    // c121
-    char[3] Side2,// c126a
-    // c126b
-    repeat char[1] seqNo,
-    u16 clOrdID,
-    match clOrdID as Body {
-        // c140
-        198 : Leg,
-        23 : Quote,
-        // c148a
-        // c148b
-        13 : Ack,
-        159 : Fill,
-    },
-    u32 venue @calculatedFrom(""CRC32""),// c164
-}// c165a")).
-Eval vm_compute in ("<<<M1608>>>" ++ check (runes_of_ascii "
-
-  // packet A { u8 x, }
-    root	packet
-leftPad {
-
-    @calculatedFrom(
-//x
-  ""`tick`""
-
-)
-
-    @rightPad 
-( ) 
-    // " ++ [128512]%N ++ runes_of_ascii " emoji
-	string_
-// `tick` ""quote"" 'q'
-    // a // b
-	@lengthOf(  tag)
-    `a\`
-,  i64 T`" ++ [233]%N ++ runes_of_ascii "`
-
-,//	t
-} packet	Pad 	 // @lengthOf(
-{  @lengthOf( float
-)
-
-    char[]
-	x
-@calculatedFrom( ""a\""b"")
-    ,// trailing space 
-	  @tag( 
-0 // " ++ [128512]%N ++ runes_of_ascii " emoji
-    ) // " ++ [27880; 37322]%N ++ runes_of_ascii "
-		repeatCount 	 // packet A { u8 x, }
-,
-repeat 
-rootA 
-{_x , 
-zchar[ 
-3 ]roots 
-    /// triple
-  `crlf
-line`
-	, },
-	/// triple
-// a // b
-	match
-
-metadata
-
-as  BodyLength {[ 
-      // c
-	  10
-
-,
-    10  ,  ""a\""b"" 
-,
-	"""" 
-,
-	""\n""
-    ,
-
-    ""a\\"" ,
-	4294967296
-]
-    :
-
-    u	, 
-} , repeat
-i64_
-Packet `" ++ [28040; 24687; 31867; 22411]%N ++ runes_of_ascii "`
-	, 
-@tag(// packet A { u8 x, }
-    65535	)
-
-char[] float 
-`it's`, char[ 7 ]
-
-    x
-    @calculatedFrom(
-
-""{,}"")
-    ,  }
-
-    MetaData leftPad	// a // b
-  {
-
-body
-rootA`crlf
-line`,
-
-int64
-	msg_type
-	`doc` ,  // @lengthOf(
-  }
-")).
-Eval vm_compute in ("<<<M221>>>" ++ check (runes_of_ascii "packet u128
-{ @rightPad (
-' ' )
-i64_ { Logon ,char[ 4294967296
-    // @lengthOf(
-    ] MetaDataX@calculatedFrom( """ ++ [28040; 24687]%N ++ runes_of_ascii """ ) , } // " ++ [27880; 37322]%N ++ runes_of_ascii "
-,	rootA{ zchar[
-    // " ++ [128512]%N ++ runes_of_ascii " emoji
-    1 // a // b
-]rootA ,
-asx { rootA @calculatedFrom( ""abc""  ), repeat uint16 x_y_z
-,
-    // packet A { u8 x, }
-    zchar[
-42
-    ] stringy ,body , }, }, @leftPad
-( '\x00' ) char[ 3]Z9_ @lengthOf(  roots )
-    // trailing space 
-    `" ++ [233]%N ++ runes_of_ascii "`	, @lengthOf( charz	) @leftPad ( '0')@calculatedFrom(  ""a\""b"" )
-    zchar[//	t
-7 ]
-    // @lengthOf(
-    a1 @calculatedFrom( ""\" ++ [233]%N ++ runes_of_ascii """
-) //
-`// not a comment` ,
-@lengthOf( lengthOf ) repeat
-i16
-chars
-,int
-{
+Eval vm_compute in ("<<<M263>>>" ++ check (runes_of_ascii "
+packet Z9_ //x
+{ @calculatedFrom( ""1"" )
+match
+body as u8x{ [ 7 ] :
+u ,
+[7
+,00, ""a\""b""
+, """" , ""\n"" , 00
+] : charz , 1	: // c
+Packet
+, """ ++ [28040; 24687]%N ++ runes_of_ascii """ :
+f32a ,  00 : // trailing space 
+len } ,@lengthOf(calculatedFrom )	MetaDataX
+    , Packet	@lengthOf(
+    int ) , repeat // `tick` ""quote"" 'q'
+char[ 7 ]calculatedFrom, @calculatedFrom(""a\\"" ) zchar[ //
+255 // " ++ [128512]%N ++ runes_of_ascii " emoji
+] f32a @calculatedFrom( """ ++ [233]%N ++ runes_of_ascii "t" ++ [233]%N ++ runes_of_ascii """ ) ,	@calculatedFrom( ""a\""b"" // packet A { u8 x, }
+)char[7
     //	t
-    zchar[
-    1 ] calculatedFrom`line1
-line2`,Packet `" ++ [28040; 24687; 31867; 22411]%N ++ runes_of_ascii "` , } ,// " ++ [128512]%N ++ runes_of_ascii " emoji
-@rightPad ( '\x00'  )
-    zchar[255 // `tick` ""quote"" 'q'
-]
-    repeatCount @calculatedFrom(""\" ++ [233]%N ++ runes_of_ascii """ ) , repeat
-    char[] Pad
-`a\` ,  @lengthOf( pack )	i8 int , }")).
-Eval vm_compute in ("<<<M1577>>>" ++ check (runes_of_ascii "packet calculatedFrom {
-    // a // b
-    string charz `two words`,
-}
-
-packet stringy {
-    @lengthOf(msg_type)
-    crc,
-    @leftPad('0')
-    crc @lengthOf(u128),
-    @leftPad(' ')
-    match x_y_z as rootA {
-        [3, 255] : int,
-        ""1"" : o,
-        // a // b
-        10 : tag,
-        // c
-        10 : Header,
-        3 : a1,
-        """ ++ [128512]%N ++ runes_of_ascii """ : packetx,
-    },
-    match o as x {
-        ""a	b"" : u8x,
-    },
-    @rightPad()
-    repeat u packetx,
-    T,
-    repeat Logon,
-    T {
-        repeat x_y_z,// a // b
-        i8 crc `two words`,
-        char[] calculatedFrom @calculatedFrom(""x y""),
-    },
-    roots calculatedFrom,
-    @lengthOf(asx)
-    repeat x_y_z {
-        T matchKey,
-    },
-}
-
-options {
-    float = char[1];
-    msg_type = i8
-    x = zchar[7];
-    f32a = ""\n""
-}")).
-Eval vm_compute in ("<<<M369>>>" ++ check (runes_of_ascii "root
-packet leftPad { @calculatedFrom( """ ++ [128512]%N ++ runes_of_ascii """) int64 len
-`{ , }` , } packet
-    u128
-    { zchar[ 65535 ] chars @calculatedFrom( ""\" ++ [233]%N ++ runes_of_ascii """
-    ), @lengthOf(  int
-// packet A { u8 x, }
-// @lengthOf(
-) i64_ , crc { match	Z9_ as Logon
-    {
-10 : int ,
-[ 0 ]
-: u8x ,
+    ] i8i8 @calculatedFrom(""a\\"") `crlf
+line` ,zchar[
+    0123456789	]
+x `line1
+line2`
+,@leftPad () repeat
+u64 stringy , @lengthOf( x	) repeat
+body
+{//	t
+Z9_ {
+repeat asx , repeat crc i64_ // " ++ [27880; 37322]%N ++ runes_of_ascii "
+, repeat rootA { repeat rootA MetaDataX `line1
+line2`
+    // `tick` ""quote"" 'q'
+    ,match
+i64_ as
+calculatedFrom {
+    7
+:
+x[ 7 ] : stringy , ""1"": i8i8 , [
+""1"" , 42 ,
 // trailing space 
-//x
-42 :
-    trueish , [ ""\" ++ [233]%N ++ runes_of_ascii """ , 4294967296
-    ]
-:Z9_
-    ""\n""	: u128 ,	} ,
-    repeat string_ uint8x, i8i8 , match u as body
-{ 4294967296:
-// " ++ [27880; 37322]%N ++ runes_of_ascii "
 /// triple
-Z9_, 10
-:	Z9_,
-[ """ ++ [128512]%N ++ runes_of_ascii """
-    ,
-    ""x y"" ]
-: pack ,
-    } , }
-, @tag( // " ++ [128512]%N ++ runes_of_ascii " emoji
-0123456789 )
-    @lengthOf( calculatedFrom) @leftPad ( '\x00' // c
-) zchar[ 3 ]
-    T ,
-match A  as
-    leftPad{ [ """ ++ [28040; 24687]%N ++ runes_of_ascii """ ] :i64_""// no comment"" :
-    string_
-    ,
-} , } // trailing space ")).
-Eval vm_compute in ("<<<M122>>>" ++ check (runes_of_ascii "
-packet u128  { // trailing space 
-string  Header `say ""hi""` , repeat crc
-f32a,
-    char[ 10
-    ] _x	,	@calculatedFrom( ""x y""	) repeat
-    //
-    charz	{
-    Logon @lengthOf(T) `crlf
-line`
-, repeat char[ // trailing space 
-0123456789 ]Z9_
-    `crlf
-line` ,
-    } ,
-    match Packet
-    as
-// " ++ [128512]%N ++ runes_of_ascii " emoji
+""" ++ [233]%N ++ runes_of_ascii "t" ++ [233]%N ++ runes_of_ascii """ , 10 ,
+255 , 0 , 10 ]
+: u ,
+""x y""
+:
+    i8i8 }
 // `tick` ""quote"" 'q'
-float // a // b
-{
-    1
-:  lengthOf }  ,  MetaDataX , match x as
-u8x { 10 :crc } , } root packet // `tick` ""quote"" 'q'
-Header // a // b
-{ @calculatedFrom( ""{,}"") a1
-    {  char[
-    // packet A { u8 x, }
-    007 ] pack ,stringy //x
-zchar
-    , repeat
-char[]
-    // " ++ [128512]%N ++ runes_of_ascii " emoji
-    o `it's`	, } , }")).
-Eval vm_compute in ("<<<M327>>>" ++ check (runes_of_ascii "root packet asx
-    { tag body `u8 x,` , }
-packet string_ {
-    @lengthOf(
-len // a // b
-)repeat	zchar[ 42 ] u8x,zchar[ 0 ] asx
-    , } packet
-// " ++ [128512]%N ++ runes_of_ascii " emoji
-// " ++ [27880; 37322]%N ++ runes_of_ascii "
-int {repeat crc
-    { zchar float , match
-    i8i8 as rootA//x
-{ 255 : lengthOf , 1 :lengthOf
-,3
-    :
-roots , 3 : uint8x ,0
-    :As , ""`tick`"" :	repeatCount , }  , repeat
+//x
+,uint64 _x `
+` ,char[ 0 ] i64_ @calculatedFrom( ""CRC32""
+)
+    , }, x_y_z {
+char[] T
+// a // b
+// @lengthOf(
+,} ,} ,repeat  u64 Foo `a\`,
+    uint8
+uint8x,
+match
+//	t
+// trailing space 
+roots
+as chars {1
+    : _x ""a\""b"" :uint8x, 42 : metadata // " ++ [128512]%N ++ runes_of_ascii " emoji
+, // `tick` ""quote"" 'q'
+[// @lengthOf(
+""\n"" ,
+255]
+: zchar
+[ """ ++ [233]%N ++ runes_of_ascii "t" ++ [233]%N ++ runes_of_ascii """ ,3
+, 4294967296 ,// trailing space 
+0123456789 , ""x y"" ] : metadata[ // c
+""it's"" , ""// no comment""
+]  :Z9_
+    , }
+,	}
+    , } // a // b
+MetaData rootA	{ char[ 4294967296 ] msg_type,// @lengthOf(
+char[]  u128, uint64 a1 , int8 crc , Pad
+    msg_type `doc`
+,
+}
+//	t
 /// triple
+packet x_y_z
+    {@lengthOf( crc) match packetx as f32a	{ 0123456789:A
+,	00 :	u // @lengthOf(
+}, }
+")).
+Eval vm_compute in ("<<<M225>>>" ++ check (runes_of_ascii "packet T
+    // " ++ [128512]%N ++ runes_of_ascii " emoji
+    { match repeatCount as
+Packet {
+    ""packet"" : msg_type , 00 :
+    Foo
+    ,""" ++ [128512]%N ++ runes_of_ascii """ : trueish, """": repeatCount
+    [ // packet A { u8 x, }
+4294967296 , 65535 ] :	u ,	}, @calculatedFrom( ""a\\"" )
+    float32 len @lengthOf(// " ++ [128512]%N ++ runes_of_ascii " emoji
+string_
+    ), stringy Pad, roots{ repeat x_y_z
+    `// not a comment`
+, T
+`" ++ [233]%N ++ runes_of_ascii "` , }, @tag(
+007 )  _x
+{// " ++ [128512]%N ++ runes_of_ascii " emoji
+char[] body
+@calculatedFrom( """ ++ [233]%N ++ runes_of_ascii "t" ++ [233]%N ++ runes_of_ascii """
+    //	t
+    ) ,repeat Pad// packet A { u8 x, }
+``
+// c
+/// triple
+, }
+    //x
+    , match	u as packetx{// `tick` ""quote"" 'q'
+[ ""// no comment"" ,
+007]	: T
+, [  ""\" ++ [233]%N ++ runes_of_ascii """// " ++ [27880; 37322]%N ++ runes_of_ascii "
+] :// trailing space 
+u8x } , @rightPad( ) int8 _x , @lengthOf(
+A	)match/// triple
+crc
+as metadata { [ 00,
+    //	t
+    ""a\""b"" ,3
+    , 1
+    ,
+10 ] : Packet , //	t
+[
+4294967296	, ""abc"" , """"] // @lengthOf(
+:
+// `tick` ""quote"" 'q'
+// " ++ [27880; 37322]%N ++ runes_of_ascii "
+a1 , """ ++ [28040; 24687]%N ++ runes_of_ascii """ // `tick` ""quote"" 'q'
+:
+    repeatCount  , } , }options { }MetaData Header
+{  trueish Pad ,
+    } MetaData Z9_ { char[]
+metadata ,
+// " ++ [128512]%N ++ runes_of_ascii " emoji
+// packet A { u8 x, }
+Header A
+`doc`
+// a // b
+// a // b
+, //x
+uint32 // " ++ [27880; 37322]%N ++ runes_of_ascii "
+packetx ,
+int16 uint8x
+    //
+    , Header// @lengthOf(
+leftPad
+    , // packet A { u8 x, }
+}
+// trailing space 
+")).
+Eval vm_compute in ("<<<M1898>>>" ++ check (runes_of_ascii "  MetaData	len {
+i8
+_x 
+        //	t
+      `` ,  zchar[  00]
+tag 
+,
+
+roots
+
+    u
+
+    // `tick` ""quote"" 'q'
+    ,
+
+    uint16  repeatCount, 
+msg_type tag ,
+    } packet x_y_z
+
+{ metadata
+{ i8i8
+
+chars 
+,
+	i64	chars
+,
+	}
+
+    ,	repeat 
+u16 asx 
+    // a // b
+    // a // b
+	,
+}
+packet 
+u8x
+	{@lengthOf(
+	BodyLength
+
+) @leftPad
+	( 
+    // a // b
+	  //
+  )
+
+    float  
+  /// triple
+
+	`
+`  ,
+    @calculatedFrom(
+""// no comment""	) float32  // " ++ [128512]%N ++ runes_of_ascii " emoji
+    chars	`// not a comment`
+    ,
+uint32  u128
+
+    ,@tag(
+0 
+)int16 tag ,
+leftPad	msg_type
+    ,// trailing space 
+  pack
+`tab	here` 
+, @lengthOf(
+
+repeatCount 
+// c
+		// c
+	) 
+zchar[
+4294967296
+
+    ]
+
+    len
+	,
+
+    i32	packetx  `tab	here`, calculatedFrom,metadata
+@calculatedFrom( ""// no comment"" )
+
+,
+
+    } options  {	// trailing space 
+	options1
+	= 
+42
+
+    ; i64_ 
+  // a // b
+  = char[]
+	falsey
+= 
+    // packet A { u8 x, }
+  //	t
+42 // a // b
+    Packet 
+=
+
+true 
+;  }
+
+")).
+Eval vm_compute in ("<<<M196>>>" ++ check (runes_of_ascii "root  packet u { match //x
+T as body// c
+{
+[
+""a\""b""
+    , 3 ] :
+stringy  ""a	b"" : charz // a // b
+,
+    10:  lengthOf// " ++ [128512]%N ++ runes_of_ascii " emoji
+, ""CRC32"" : falsey
+,
+    0123456789 : _x ,
+    } , body @lengthOf( i64_ )
+, u64 chars
+`u8 x,` ,T {i64_ string_,
+    u32 metadata , zchar[ 1
+]Z9_,}
+    // c
+    ,@calculatedFrom( ""a\\"" ) rootA // " ++ [128512]%N ++ runes_of_ascii " emoji
+x_y_z
+`u8 x,` ,
+    zchar[ 007 ]body @calculatedFrom(
+""\n""
+) ,
+    @leftPad (
+'0') @rightPad
+    ( '0' )
+@calculatedFrom( """ ++ [233]%N ++ runes_of_ascii "t" ++ [233]%N ++ runes_of_ascii """
+    )	repeat uint64 A	, repeat  u8x
+    { match
+o
+as
+x
+    {
+    10	:charz
+// " ++ [27880; 37322]%N ++ runes_of_ascii "
+// " ++ [27880; 37322]%N ++ runes_of_ascii "
+,""a	b"": matchKey
+, ""x y""
+:
+    trueish ,[ """ ++ [233]%N ++ runes_of_ascii "t" ++ [233]%N ++ runes_of_ascii """ ] : zchar,""1"" : charz // " ++ [27880; 37322]%N ++ runes_of_ascii "
+,
+[ ""a\""b"" ,
+""abc""
+, ""a\\"", ""abc"" ,
+// packet A { u8 x, }
+// " ++ [128512]%N ++ runes_of_ascii " emoji
+""""
+// packet A { u8 x, }
+/// triple
+] : u8x, } ,	},repeat falsey { rootA
+    tag ,
+    zchar[/// triple
+0 ] falsey ,  }
+    , charz a1 `{ , }`
+, } root
+packet /// triple
+Header{}
+")).
+Eval vm_compute in ("<<<M228>>>" ++ check (runes_of_ascii "packet
 //
-char[]
-falsey ,
-    u64 lengthOf ,} , @lengthOf( crc ) lengthOf i64_ , leftPad
-`crlf
-line`, }
-    root	packet zchar{ f32 _x @calculatedFrom( ""a\\"" ), }	MetaData chars // trailing space 
-{//
+// " ++ [27880; 37322]%N ++ runes_of_ascii "
+BodyLength  {
+repeat
+    // @lengthOf(
+    zchar[	255]tag `crlf
+line` , } MetaData BodyLength	{
+char[ 65535] //	t
+packetx `" ++ [28040; 24687; 31867; 22411]%N ++ runes_of_ascii "` , } options
+    {
+    metadata =3; // trailing space 
+} packet Packet
+{ o { uint16	Logon
+    , } , @leftPad (  )char[ 0123456789 ]
+a1 `" ++ [28040; 24687; 31867; 22411]%N ++ runes_of_ascii "` // a // b
+,
+    repeat string
+lengthOf
+    `{ , }`	,stringy crc
+,@rightPad (
+' ' ) u32	MetaDataX
+    ,
+@rightPad('0' ) tag	{repeat f64 tag `u8 x,`
+, }
+    //	t
+    , char[
+    00 ] uint8x `` , match leftPad  as Header {""" ++ [233]%N ++ runes_of_ascii "t" ++ [233]%N ++ runes_of_ascii """  : Foo
+, [	""\" ++ [233]%N ++ runes_of_ascii """
+, 007
+,00 , 10, ""\" ++ [233]%N ++ runes_of_ascii """ ]: crc
+, [ 1 ,007 , ""a\\""
+    ,
+""packet""
+    ]: //	t
+len // packet A { u8 x, }
+, 10 : MetaDataX
+//x
+// " ++ [128512]%N ++ runes_of_ascii " emoji
+,  }
+//	t
+/// triple
+, } packet
+    i64_{
+@rightPad	('\x00'
+)
+@leftPad(
+) i8 body@calculatedFrom(""" ++ [233]%N ++ runes_of_ascii "t" ++ [233]%N ++ runes_of_ascii """) `it's` , }
+// @lengthOf(
+")).
+Eval vm_compute in ("<<<M1346>>>" ++ check (runes_of_ascii "options
+{ StringPrefixLenType	= u16	;	ArrayPrefixLenType =
+u32; FixedStringPadFromLeft = 
+true;  FixedStringPadChar 
+=	'0'
+    ;
+
+    } packet Cancel{
+    }
+
+packet
+Party
+{
+
+    } packet	Logon { } packet 
+Ack
+{ }
+packet 
+Logout
+{ repeat
+InSym87 {InClordid94
+
+{ string clOrdID	,
+    } 
+, 
+string
+    Px , i16  Qty,	repeat  InCount71	{repeat
+    Cancel 
+,
+uint16	Tail
+, char[
+	2
+
+]
+x
+    ,repeat string Ref
+
+,
+
+}
+
+, Cancel
+	,
+}
+    , } 
+root
+    packet
+    Order  {
+    repeat
+string 
+tag7 
+,
+
+@leftPad
+
+( ' ' ) char[3  ]
+	Px
+	, u8	Qty ,
+    match  Qty
+
+    as
+Body
+    {
+	[ 
+28
+
+    ,	62 ]
+    : 
+Logon
+
+    ,148 : Ack, 88:Party	, 184
+: 
+Cancel	, }
+    , u16	Note@calculatedFrom(
+	""CRC32"" )
+
+,  }
+")).
+Eval vm_compute in ("<<<M1421>>>" ++ check (runes_of_ascii "packet tag {
+    @calculatedFrom(""x y"")
+    lengthOf {
+        options1 `
+        `,
+    },
+    @tag(7)
+    int {
+        //x
+        // " ++ [27880; 37322]%N ++ runes_of_ascii "
+        char[007] calculatedFrom @lengthOf(metadata),
+        tag @lengthOf(falsey),
+        f32 calculatedFrom `{ , }`,
+        i8i8 {
+            string i64_ @lengthOf(asx) `it's`,
+            u @calculatedFrom(""\n""),
+        },
+    },
+    @calculatedFrom(""abc"")
+    @leftPad(' ')
+    uint64 calculatedFrom,// " ++ [27880; 37322]%N ++ runes_of_ascii "
+}
+
+packet o {
+    Header,
+    @lengthOf(i8i8)
+    float32 Pad,
+    char[42] leftPad @calculatedFrom(""""),
+    @tag(255)
+    body u,
+}
+
+packet lengthOf {
+    @tag(255)
+    char[0123456789] o `
+    `,
 }")).
-Eval vm_compute in ("<<<M1337>>>" ++ check (runes_of_ascii "options {
-    ArrayPrefixLenType = u64;
-    FixedStringPadFromLeft = true;
-    FixedStringPadChar = '0';
+Eval vm_compute in ("<<<M1294>>>" ++ check (runes_of_ascii "// top
+packet // c0a
+  // c0b
+A // c1
+{
+    // c2
+u8
+    // c3
+a // c4a
+  // c4b
+, } // c6a
+  // c6b
+packet // c7a
+  // c7b
+B // c8a
+  // c8b
+{ u16 // c10
+b // c11a
+  // c11b
+,
+    // c12
 }
-packet Quote {
+    // c13
+root // c14
+packet P // c16
+{ // c17a
+  // c17b
+u8 K1 // c19
+, // c20
+u8 // c21a
+  // c21b
+K2 // c22a
+  // c22b
+, // c23a
+  // c23b
+match // c24a
+  // c24b
+K1 as
+    // c26
+M1 // c27a
+  // c27b
+{ // c28a
+  // c28b
+1
+    // c29
+:
+    // c30
+A // c31
+, // c32a
+  // c32b
+} , match K2
+    // c36
+as
+    // c37
+M2 // c38
+{ 1 : // c41a
+  // c41b
+B
+    // c42
+, } ,
+    // c45
+} // c46
+")).
+Eval vm_compute in ("<<<M1300>>>" ++ check (runes_of_ascii "// top
+packet // c0
+A { u8
+    // c3
+a , // c5a
+  // c5b
+} // c6
+packet
+    // c7
+B { // c9a
+  // c9b
+u16 // c10a
+  // c10b
+b // c11
+, // c12
 }
-packet Ack {
-    repeat InNote66 {
-        u8 pad0,
-    },
+    // c13
+root packet // c15a
+  // c15b
+P { // c17
+u8 // c18
+K // c19
+, // c20
+match // c21
+K // c22
+as // c23
+M // c24a
+  // c24b
+{
+    // c25
+[ // c26
+1
+    // c27
+,
+    // c28
+2 // c29a
+  // c29b
+] // c30a
+  // c30b
+: // c31a
+  // c31b
+A // c32a
+  // c32b
+, 3
+    // c34
+: // c35
+B // c36a
+  // c36b
+, 7 // c38
+: // c39a
+  // c39b
+A // c40
+, // c41
+} ,
+    // c43
 }
-packet Reject {
-}
-root packet Order {
-    Quote,
-    repeat Reject,
-    string venue,
-    string seqNo,
-    uint32 Ref,
-    u16 lastPx,
-    u32 clOrdID @lengthOf(Body),
-    match lastPx as Body {
-        190 : Reject,
-        186 : Quote,
-        22 : Ack,
-    },
-    u16 Flags @calculatedFrom(""CRC32""),
+    // c44
+")).
+Eval vm_compute in ("<<<M33>>>" ++ check (runes_of_ascii "packet
+int {zchar[ 007 ] metadata ,i16	matchKey,
+@rightPad('0')
+@lengthOf(
+    metadata) repeat zchar[
+    10 ]
+//
+// " ++ [128512]%N ++ runes_of_ascii " emoji
+charz
+    // trailing space 
+    ,	} packet int { @tag( 65535 )
+u32 x @calculatedFrom(
+    ""x y""// " ++ [27880; 37322]%N ++ runes_of_ascii "
+),match pack as MetaDataX
+{
+    [	""abc"" ,
+    // " ++ [27880; 37322]%N ++ runes_of_ascii "
+    0123456789 , ""`tick`"" ] :
+body}	, @lengthOf( zchar ) match leftPad as u8x{
+    10:  u8x ,
+[
+007
+    // " ++ [128512]%N ++ runes_of_ascii " emoji
+    , 255
+    ]
+    :
+    chars	"""" :
+    body ,42 : trueish , }, }")).
+Eval vm_compute in ("<<<M1750>>>" ++ check (runes_of_ascii "
+options
+    { u
+
+= 7
+        // " ++ [27880; 37322]%N ++ runes_of_ascii "
+roots
+    =
+
+zchar[
+    65535
+
+]
+msg_type=""" ++ [233]%N ++ runes_of_ascii "t" ++ [233]%N ++ runes_of_ascii """  ;x
+=  false
+}MetaData  string_
+
+{  char[	// trailing space 
+    42
+        //x
+  // " ++ [128512]%N ++ runes_of_ascii " emoji
+
+	]
+    i8i8  `" ++ [28040; 24687; 31867; 22411]%N ++ runes_of_ascii "`
+, u8  x_y_z ,
+packetx
+
+    lengthOf
+`` 
+// " ++ [27880; 37322]%N ++ runes_of_ascii "
+  	,T Header
+
+    `line1
+line2`, char[]// " ++ [27880; 37322]%N ++ runes_of_ascii "
+  	u8x
+	`two words`	, 
+}packet
+    float //x
+    { 
+calculatedFrom
+, @rightPad  ('0'  ) char[3  ]
+    u128 ,
 }
 ")).
-Eval vm_compute in ("<<<M180>>>" ++ check (runes_of_ascii "options
-    // @lengthOf(
-    {}
-packet charz { @rightPad (  ' ') @calculatedFrom(
-    ""a\\"" ) repeat int	crc `two words` , string stringy
-    @calculatedFrom( ""a	b""
-    // " ++ [128512]%N ++ runes_of_ascii " emoji
-    )`// not a comment`	,//
-char i8i8,
-}  MetaData	crc {// `tick` ""quote"" 'q'
-crc i64_`{ , }`
-,
-    // `tick` ""quote"" 'q'
-    i32// c
-u128 ,// packet A { u8 x, }
-BodyLength Header
-    ,char[ 0123456789]
-/// triple
-//
-Packet `u8 x,`
-, uint8 repeatCount , //	t
-}")).
-Eval vm_compute in ("<<<M1657>>>" ++ check (runes_of_ascii "// top
+Eval vm_compute in ("<<<M1625>>>" ++ check (runes_of_ascii "// top
 options {
-    // c1a
-    // c1b
-    LittleEndian = false;// c5a
-    // c5b
+    // c1
+    uint8x = 007;
+    // c5
+    lengthOf = i8;
+}
+
+// c10
+packet i64_ {
+    @calculatedFrom(""1"")
+    @tag(3)
+    @lengthOf(rootA)
+    // c22
+    repeat int8 Packet `u8 x,`,
+}
+
+// c28
+root packet stringy {
+    @rightPad(' ')
+    // c36
+    repeat char[10] repeatCount,
+    @tag(255)
+    // c45
+    float64 msg_type @calculatedFrom(""packet""),
+}")).
+Eval vm_compute in ("<<<M323>>>" ++ check (runes_of_ascii "options{ }
+MetaData  string_ // `tick` ""quote"" 'q'
+{ u32
+matchKey `u8 x,`,
+    string  MetaDataX , uint8
+Logon, uint64 options1
+, char[ 00 ] len
+// `tick` ""quote"" 'q'
+// trailing space 
+`tab	here` , u8
+options1
+, }// a // b
+packet a1 { chars ,
+char[]
+i64_ @lengthOf(
+    // " ++ [27880; 37322]%N ++ runes_of_ascii "
+    stringy
+) ,char T,repeat i8 charz
+`a\`
+,
+}
+")).
+Eval vm_compute in ("<<<M81>>>" ++ check (runes_of_ascii "root packet o {
+} MetaData uint8x
+    { int64 rootA  ,}
+    MetaData
+As{i32 // packet A { u8 x, }
+chars,	}packet Z9_// trailing space 
+{
+@leftPad( )char[]	x_y_z,} packet tag {	@leftPad(
+// " ++ [128512]%N ++ runes_of_ascii " emoji
+// " ++ [27880; 37322]%N ++ runes_of_ascii "
+' '
+    )
+zchar[ 0 // `tick` ""quote"" 'q'
+] rootA @calculatedFrom(
+    ""a\\"" )
+    `tab	here`
+,}")).
+Eval vm_compute in ("<<<M1756>>>" ++ check (runes_of_ascii "options {
+    LittleEndian = false;
     StringPrefixLenType = u16;
-}// c10
+}
 
 packet Heartbeat {
     @rightPad('0')
-    char[7] seqNo,// c22a
-    // c22b
-    uint64 Tail,// c25a
-    // c25b
-    i16 Flags,// c28a
-    // c28b
+    char[7] seqNo,
+    uint64 Tail,
+    i16 Flags,
     u16 msgKind,
-}// c32a
+}
 
-// c32b
 root packet Reject {
-    zchar[3] tag7,// c41
+    zchar[3] tag7,
     repeat Heartbeat,
     repeat string clOrdID,
 }")).
-Eval vm_compute in ("<<<M74>>>" ++ check (runes_of_ascii "options{ u = 7
-    // " ++ [27880; 37322]%N ++ runes_of_ascii "
-    roots
-=zchar[
-65535
-    ]
-msg_type = """ ++ [233]%N ++ runes_of_ascii "t" ++ [233]%N ++ runes_of_ascii """
-; x =false
-    } MetaData string_ { char[ // trailing space 
-42
-//x
-// " ++ [128512]%N ++ runes_of_ascii " emoji
-]
-i8i8 `" ++ [28040; 24687; 31867; 22411]%N ++ runes_of_ascii "`	, u8
-    x_y_z
-, packetx lengthOf``
-    // " ++ [27880; 37322]%N ++ runes_of_ascii "
-    ,
-T Header `line1
-line2` ,
-char[] // " ++ [27880; 37322]%N ++ runes_of_ascii "
-u8x `two words` ,}packet
-float //x
-{
-    calculatedFrom
-    ,
-@rightPad ( '0'
-) char[
-    3
-] u128 , } 	 ")).
-Eval vm_compute in ("<<<M30>>>" ++ check (runes_of_ascii "packet
-repeatCount
-    {@calculatedFrom(	""abc"" ) zchar[
-    // @lengthOf(
-    0
-] // `tick` ""quote"" 'q'
-MetaDataX  `
-`	, string_
-@calculatedFrom( ""1""
-    ) ,	match string_
-    as msg_type{ [// a // b
-65535	,// a // b
-""a	b""
-    , 7
-    ,	255 ]:
-matchKey , 10 :
-    options1 , 3 :Logon
-    , } ,
-    // " ++ [27880; 37322]%N ++ runes_of_ascii "
-    packetx `a\` ,}
-")).
-Eval vm_compute in ("<<<M370>>>" ++ check (runes_of_ascii "  root packet trueish // " ++ [128512]%N ++ runes_of_ascii " emoji
-{ char[] MetaDataX , @leftPad (
-    // trailing space 
-    '0' )match float as
-//x
-// trailing space 
-crc { 0123456789 :// " ++ [27880; 37322]%N ++ runes_of_ascii "
-chars	, ""{,}"" : i8i8,
+Eval vm_compute in ("<<<M1682>>>" ++ check (runes_of_ascii "packet zchar {
+    zchar[42] uint8x,
+    match A as As {
+        0 : int,
+    },
+    @tag(7)
+    @calculatedFrom(""packet"")
+    match i64_ as metadata {
+        ""CRC32"" : A,
+    },
 }
-, f32a
-    // " ++ [128512]%N ++ runes_of_ascii " emoji
-    f32a `tab	here` ,// " ++ [128512]%N ++ runes_of_ascii " emoji
-@lengthOf( Foo )
-    Packet@calculatedFrom( """ ++ [28040; 24687]%N ++ runes_of_ascii """ ) `it's` , }
-")).
-Eval vm_compute in ("<<<M1405>>>" ++ check (runes_of_ascii "
 
-  packet
-
-P1{
-    u8
-
-    a , }packet	P2 {
-
-    P1 ,	}
-
-packet P3 
-{
-    P2, P1,	}
-
-    packet  P4
-
-    {
-	repeat
-	P3 
-,P2
-,}
-root
-packet 
-P5	{
-    P4
-
-,
-
-    P3 , P1
-, 
-u8
-
-K
-,
-
-match K
-    as Body	{
-
-4
-
-: P4
-,
-3
-: P3
-, 
-2 : P2
-, 1 
-:
-    P1
-,
-}
-	, }")).
-Eval vm_compute in ("<<<M267>>>" ++ check (runes_of_ascii "packet trueish{
-@leftPad (// @lengthOf(
-'0'  ) @tag(  3/// triple
-) @tag(
-7 ) repeat
-//x
-// @lengthOf(
-matchKey
-{ u32 u,
-}  , @lengthOf( chars
-) @calculatedFrom(
-""a	b"") @tag( 0123456789
-    )zchar[255 ]Pad ,  } root
-    packet u { }
-")).
-Eval vm_compute in ("<<<M318>>>" ++ check (runes_of_ascii "options {Z9_ =// trailing space 
-""packet"" ;float = false
-; A =
-' ' }
-    // c
-    MetaData pack
-{ zchar[
-3] leftPad
-,zchar
-    falsey `it's` , char[] repeatCount ,char[ 65535 // " ++ [128512]%N ++ runes_of_ascii " emoji
-] Z9_, }
-//	t
-")).
-Eval vm_compute in ("<<<M1281>>>" ++ check (runes_of_ascii "// top
-root // c0a
-  // c0b
-packet P {
-    // c3
-u16
-    // c4
-a
-    // c5
-,
-    // c6
-u32 // c7a
-  // c7b
-Sum // c8
-@calculatedFrom( // c9a
-  // c9b
-""CRC32"" ) , } // c13
-")).
-Eval vm_compute in ("<<<M355>>>" ++ check (runes_of_ascii "options  { As = true
-    MetaDataX =true	}	packet A { repeat calculatedFrom `say ""hi""`
-    ,} MetaData crc { u crc ,
-    uint32 body , i16 stringy
-`u8 x,`
-, }
-")).
-Eval vm_compute in ("<<<M1818>>>" ++ check (runes_of_ascii "
-packet
-
-A
-	{ match
-
-    k
-    as  n
-
-{
-[ ""a""
-,
-
-    ""bb"" ,
-007  ,	""d""
-    ,
-""e""
-,
-    66  ,
-""g"" ,  ""h"" 
-,
-9, 
-""j""
-
-,
-
-    ""k""
-]
-	:B,
-	2 : 
-C
-}
-,
+root packet uint8x {
+    char[00] crc,// " ++ [128512]%N ++ runes_of_ascii " emoji
 }")).
-Eval vm_compute in ("<<<M488>>>" ++ check (runes_of_ascii "packet uint8x
+Eval vm_compute in ("<<<M207>>>" ++ check (runes_of_ascii "
+MetaData chars { } options
+{ As
+= true ;As // `tick` ""quote"" 'q'
+= false; stringy
+= true} packet repeatCount  {string
+    float@lengthOf(
+    matchKey )
+// packet A { u8 x, }
+//x
+`say ""hi""` ,
+}
+")).
+Eval vm_compute in ("<<<M1455>>>" ++ check (runes_of_ascii "options {
+    Z9_ = ""packet"";
+    float = false;
+    A = ' '
+}
+
+MetaData pack {
+    zchar[3] leftPad,
+    zchar falsey `it's`,
+    char[] repeatCount,
+    char[65535] Z9_,
+}")).
+Eval vm_compute in ("<<<M145>>>" ++ check (runes_of_ascii "MetaData //x
+Packet
+/// triple
+// " ++ [27880; 37322]%N ++ runes_of_ascii "
+{	u
+/// triple
+// c
+lengthOf `say ""hi""`
+    , } MetaData metadata {
+    crc chars `crlf
+line` , asx f32a /// triple
+,
+}
+
+")).
+Eval vm_compute in ("<<<M1936>>>" ++ check (runes_of_ascii "// top
+	  packet// c0
+body	// c1
+	{	// c2
+    	i32 	 // c3
+    	f32a 	 // c4
+    	`{ , }` 	 // c5
+
+	,  // c6
+
+}// c7
+
+options  // c8
+{	// c9
+  }	// c10
+")).
+Eval vm_compute in ("<<<M516>>>" ++ check (runes_of_ascii "packet uint8x
 { match pack
     as msg_type	{
     0123456789 :	float
@@ -757,12 +854,12 @@ Eval vm_compute in ("<<<M488>>>" ++ check (runes_of_ascii "packet uint8x
 ,
 } packet //	t
 a1
-    { } options i8 packetx
-    = '\x00'	; u128= ""a	b""  ; }
+    { } options {packetx
+    = '\x00'	; u128= = ""a	b""  ; }
 ")).
-Eval vm_compute in ("<<<M402>>>" ++ check (runes_of_ascii "packet uint8x
-match { pack
-    as msg_type	{
+Eval vm_compute in ("<<<M422>>>" ++ check (runes_of_ascii "packet uint8x
+{ match pack
+    as {	msg_type
     0123456789 :	float
 }
 ,
@@ -771,31 +868,10 @@ a1
     { } options {packetx
     = '\x00'	; u128= ""a	b""  ; }
 ")).
-Eval vm_compute in ("<<<M1459>>>" ++ check (runes_of_ascii "
-
-  MetaData leftPad
-{chars 
-MetaDataX	,
-}  packet repeatCount	{char[
-
-    255]
-uint8x`" ++ [233]%N ++ runes_of_ascii "`
-
-,
-    }
-    MetaData
-	pack  {	// c
-As
-
-    Foo
-, 
-}
-
-")).
-Eval vm_compute in ("<<<M394>>>" ++ check (runes_of_ascii "u32 uint8x
+Eval vm_compute in ("<<<M435>>>" ++ check (runes_of_ascii "packet uint8x
 { match pack
     as msg_type	{
-    0123456789 :	float
+    0123456789 	float
 }
 ,
 } packet //	t
@@ -803,206 +879,246 @@ a1
     { } options {packetx
     = '\x00'	; u128= ""a	b""  ; }
 ")).
-Eval vm_compute in ("<<<M1503>>>" ++ check (runes_of_ascii "packet
-u128 	 //x
-	  { 
-@calculatedFrom( ""x y""
-)  // `tick` ""quote"" 'q'
-      @rightPad
-(
-' ' ) char[ 42
-	]
-Header  @calculatedFrom(
+Eval vm_compute in ("<<<M1896>>>" ++ check (runes_of_ascii "packet uint8x {
+    match pack as msg_type {
+        ""`tick`"" : float,
+    },
+}
 
-""abc""),}
-")).
-Eval vm_compute in ("<<<M721>>>" ++ check (runes_of_ascii "// @lengthOf(
+packet a1 {
+}
+
+options {
+    packetx = '\x00';
+    u128 = ""a	b"";
+}")).
+Eval vm_compute in ("<<<M660>>>" ++ check (runes_of_ascii "/""/ @lengthOf(
 packet i8i8 { u128 o , }
-options { MetaDataX = true;
-    BodyLength =""packet"" x_y_z= 007
-crc //x
-= ""abc"" msg_type
-    ; =
-i16 }")).
-Eval vm_compute in ("<<<M669>>>" ++ check (runes_of_ascii "// @lengthOf(
-packet i8i8 {  o , }
 options { MetaDataX = true;
     BodyLength =""packet"" x_y_z= 007
 crc //x
 = ""abc"" ;
     msg_type =
 i16 }")).
-Eval vm_compute in ("<<<M1270>>>" ++ check (runes_of_ascii "options {
+Eval vm_compute in ("<<<M420>>>" ++ check (runes_of_ascii "packet uint8x
+{ match pack
+    as 	{
+    0123456789 :	float
+}
+,
+} packet //	t
+a1
+    { } options {packetx
+    = '\x00'	; u128= ""a	b""  ; }
+")).
+Eval vm_compute in ("<<<M1669>>>" ++ check (runes_of_ascii "packet A {
+    match k as n {
+        [
+            22, 4, 66, 8, ""a"",
+            ""c c"", ""e"", ""g""
+        ] : B,
+        2 : C,
+    },
+}")).
+Eval vm_compute in ("<<<M1638>>>" ++ check (runes_of_ascii "// top
+  root
+	    // c0
+  packet// c1a
+      // c1b
+
+	P
+    // c2
+  {  // c3
+
+	string
+	s 	 // c5a
+		// c5b
+, 
+      // c6
+}
+")).
+Eval vm_compute in ("<<<M1748>>>" ++ check (runes_of_ascii "packet
+A
+{ match k as
+
+n {
+    [
+""a""
+
+    ,
+
+22
+
+    ,""c c""
+, 4
+,""e""
+,
+
+    66 ] :
+B ,
+    2  : C	}
+
+,
+    }
+")).
+Eval vm_compute in ("<<<M1164>>>" ++ check (runes_of_ascii "MetaData leftPad { chars MetaDataX , } packet repeatCount { char[
+// c
+255 ] uint8x `" ++ [233]%N ++ runes_of_ascii "` , } MetaData pack { As Foo , }")).
+Eval vm_compute in ("<<<M499>>>" ++ check (runes_of_ascii "packet uint8x
+{ match pack
+    as msg_type	{
+    0123456789 :	float
+}
+,
+} packet //	t
+a1
+    { } options {packetx")).
+Eval vm_compute in ("<<<M1722>>>" ++ check (runes_of_ascii "options {
     LittleEndian = true;
 }
-packet B {
+
+root packet P {
+    repeat char cs,// c14a
+    // c14b
+    u8 x,// c17
+}")).
+Eval vm_compute in ("<<<M897>>>" ++ check (runes_of_ascii "packet A {
+  match k as n {
+    [""a"", 22, ""c c"", 4, ""e"", 66, ""g"", 8, ""i"", 10, ""k""] : B,
+    2 : C
+  },
+}")).
+Eval vm_compute in ("<<<M641>>>" ++ check (runes_of_ascii "
+packet
+    asx {match u128 as lengthOf
+{
+//	t
+// `tick` ""quote"" 'q'
+255 : x ,
+    } @lengthOf ,	}")).
+Eval vm_compute in ("<<<M1652>>>" ++ check (runes_of_ascii "packet B {
     u8 a,
     string s,
 }
+
 root packet P {
     u16 L @lengthOf(B),
     B,
     u8 t,
-}
-")).
-Eval vm_compute in ("<<<M343>>>" ++ check (runes_of_ascii "packet Header { repeat char[  0123456789 ]BodyLength`" ++ [28040; 24687; 31867; 22411]%N ++ runes_of_ascii "`/// triple
-, zchar[ 3
-    ] chars
-    ,// trailing space 
-A, } //")).
-Eval vm_compute in ("<<<M1148>>>" ++ check (runes_of_ascii "MetaData leftPad {
-// c
-chars MetaDataX , } packet repeatCount { char[ 255 ] uint8x `" ++ [233]%N ++ runes_of_ascii "` , } MetaData pack { As Foo , }")).
-Eval vm_compute in ("<<<M1180>>>" ++ check (runes_of_ascii "MetaData leftPad { chars MetaDataX , } packet repeatCount { char[ 255 ] uint8x `" ++ [233]%N ++ runes_of_ascii "` , } MetaData pack
-// c
-{ As Foo , }")).
-Eval vm_compute in ("<<<M239>>>" ++ check (runes_of_ascii "options { lengthOf =3
-trueish
-// packet A { u8 x, }
-// trailing space 
-=
-    true
-; calculatedFrom =
-007;} 	 ")).
-Eval vm_compute in ("<<<M142>>>" ++ check (runes_of_ascii "packet
-len
-    // " ++ [128512]%N ++ runes_of_ascii " emoji
-    { int64 a1	@lengthOf(x_y_z )	, }
-// c
-// trailing space 
-packet x_y_z { }
-
-")).
-Eval vm_compute in ("<<<M671>>>" ++ check (runes_of_ascii "// @lengthOf(
+}")).
+Eval vm_compute in ("<<<M717>>>" ++ check (runes_of_ascii "// @lengthOf(
 packet i8i8 { u128 o , }
 options { MetaDataX = true;
-    BodyLength =""packet"" x_y_z= 0")).
-Eval vm_compute in ("<<<M883>>>" ++ check (runes_of_ascii "packet A {
+    BodyLength =""packet"" ")).
+Eval vm_compute in ("<<<M640>>>" ++ check (runes_of_ascii "
+packet
+    asx {match u128 as lengthOf
+{
+//	t
+// `tick` ""quote"" 'q'
+$255 : x ,
+    } ,	}")).
+Eval vm_compute in ("<<<M602>>>" ++ check (runes_of_ascii "
+packet
+    asx {match u128 as lengthOf
+{
+//	t
+// `tick` ""quote"" 'q'
+255 :  ,
+    } ,	}")).
+Eval vm_compute in ("<<<M860>>>" ++ check (runes_of_ascii "packet A {
   match k as n {
-    [1, ""bb"", 007, ""d"", 5, ""f"", 7, ""h"", 9, ""j""] : B
+    [1, 22, ""c c"", 4, 5, ""f"", 7, 8] : B,
     2 : C
   },
 }")).
-Eval vm_compute in ("<<<M580>>>" ++ check (runes_of_ascii "
-packet
-    asx {match u128 char[ lengthOf
-{
-//	t
-// `tick` ""quote"" 'q'
-255 : x ,
-    } ,	}")).
-Eval vm_compute in ("<<<M632>>>" ++ check (runes_of_ascii "
-packet
-    asx {match u128 a|s lengthOf
-{
-//	t
-// `tick` ""quote"" 'q'
-255 : x ,
-    } ,	}")).
-Eval vm_compute in ("<<<M575>>>" ++ check (runes_of_ascii "
-packet
-    asx {match u64 as lengthOf
-{
-//	t
-// `tick` ""quote"" 'q'
-255 : x ,
-    } ,	}")).
-Eval vm_compute in ("<<<M1579>>>" ++ check (runes_of_ascii "
-packet
-    i64_{
-    @tag(	0123456789
-    )
-	repeat
-    u16
-
-    stringy
-    ,
-
+Eval vm_compute in ("<<<M852>>>" ++ check (runes_of_ascii "packet A {
+  match k as n {
+    [1, 22, 007, 4, 5, 66, 7, 8] : B,
+    2 : C
+  },
+}")).
+Eval vm_compute in ("<<<M840>>>" ++ check (runes_of_ascii "packet A {
+  match k as n {
+    [1, 22, 007, 4, 5, 66, 7] : B
+    2 : C
+  },
+}")).
+Eval vm_compute in ("<<<M1249>>>" ++ check (runes_of_ascii "packet Inner {
+    u8 a,
 }
-
-")).
-Eval vm_compute in ("<<<M815>>>" ++ check (runes_of_ascii "packet A {
-  match k as n {
-    [""a"", ""bb"", ""c c"", ""d"", ""e""] : B,
-    2 : C
-  },
-}")).
-Eval vm_compute in ("<<<M819>>>" ++ check (runes_of_ascii "packet A {
-  match k as n {
-    [""a"", 22, ""c c"", 4, ""e""] : B,
-    2 : C
-  },
-}")).
-Eval vm_compute in ("<<<M1691>>>" ++ check (runes_of_ascii "options {
-    charz = ""1""
-    _x = """ ++ [128512]%N ++ runes_of_ascii """
-    u = string;
-    stringy = """ ++ [28040; 24687]%N ++ runes_of_ascii """
-}")).
-Eval vm_compute in ("<<<M793>>>" ++ check (runes_of_ascii "packet A {
-  match k as n {
-    [""a"", 22, ""c c""] : B,
-    2 : C
-  },
-}")).
-Eval vm_compute in ("<<<M924>>>" ++ check (runes_of_ascii "packet A {
-    B b `a
-b`,
-    B `a
-b`,
-    repeat B bs `a
-b`,
-}")).
-Eval vm_compute in ("<<<M785>>>" ++ check (runes_of_ascii "packet A {
-  match k as n {
-    [""a"", 22] : B
-    2 : C
-  },
-}")).
-Eval vm_compute in ("<<<M1638>>>" ++ check (runes_of_ascii "MetaData M {
-    u8 x `x
-        `,
-    T t `x
-        `,
-}")).
-Eval vm_compute in ("<<<M1078>>>" ++ check (runes_of_ascii "// a
-MetaData M {} // b
-// c
-MetaData N {} // d
-// e")).
-Eval vm_compute in ("<<<M777>>>" ++ check (runes_of_ascii "packet A { Inner { match k as n { [1] : B, }, }, }")).
-Eval vm_compute in ("<<<M434>>>" ++ check (runes_of_ascii "packet uint8x
-{ match pack
-    as msg_type	{")).
-Eval vm_compute in ("<<<M1240>>>" ++ check (runes_of_ascii "root packet P {
-    char c,
+root packet P {
+    Inner ref_obj,
     u8 x,
 }
 ")).
-Eval vm_compute in ("<<<M928>>>" ++ check (runes_of_ascii "root packet A {
-    u8 x `a
-b`,
-}")).
-Eval vm_compute in ("<<<M1721>>>" ++ check (runes_of_ascii "options {
-    u8x = ""packet"";
-}")).
-Eval vm_compute in ("<<<M1917>>>" ++ check (runes_of_ascii "// c
-packet asx {
-}/// triple")).
-Eval vm_compute in ("<<<M1817>>>" ++ check (runes_of_ascii "
-packet  A 
-{	} 	 // c" ++ [8287]%N ++ runes_of_ascii "
+Eval vm_compute in ("<<<M1516>>>" ++ check (runes_of_ascii "  options
+{	asx
+=	""1""//	t
+    	Pad=
+	0
+    stringy
+=	'\x00'
+    ;  }
 ")).
-Eval vm_compute in ("<<<M1106>>>" ++ check (runes_of_ascii "MetaData
-// c
-tag { }")).
-Eval vm_compute in ("<<<M1135>>>" ++ check (runes_of_ascii "MetaData u {
-// c
+Eval vm_compute in ("<<<M1290>>>" ++ check (runes_of_ascii "root packet P {
+    u8 s_u8,
+    repeat u8 r_u8,
+    u16 b_len,
+}
+")).
+Eval vm_compute in ("<<<M1894>>>" ++ check (runes_of_ascii "packet
+
+A{
+
+B b
+`
+x` , B `
+x` ,
+    repeat 
+B bs 
+`
+x`  , }
+")).
+Eval vm_compute in ("<<<M799>>>" ++ check (runes_of_ascii "packet A { Inner { match k as n { [1,22,007] : B, }, }, }")).
+Eval vm_compute in ("<<<M1197>>>" ++ check (runes_of_ascii "// c
+packet body { i32 f32a `{ , }` , } options { }")).
+Eval vm_compute in ("<<<M251>>>" ++ check (runes_of_ascii "
+root packet
+chars
+{
+    i16 leftPad
+    , }
+")).
+Eval vm_compute in ("<<<M1744>>>" ++ check (runes_of_ascii "options {
+    a1 = ""packet"";
+}// @lengthOf(")).
+Eval vm_compute in ("<<<M1918>>>" ++ check (runes_of_ascii "packet A {
+    u8 x `tab
+        	x`,
 }")).
-Eval vm_compute in ("<<<M1039>>>" ++ check (runes_of_ascii "packet A {
-}// c 	")).
-Eval vm_compute in ("<<<M1034>>>" ++ check (runes_of_ascii "packet A {
-}// c" ++ [12]%N)).
-Eval vm_compute in ("<<<M99>>>" ++ check (runes_of_ascii "
- // " ++ [128512]%N ++ runes_of_ascii " emoji")).
+Eval vm_compute in ("<<<M1870>>>" ++ check (runes_of_ascii "MetaData M {
+}
+
+MetaData N {
+}// d")).
+Eval vm_compute in ("<<<M983>>>" ++ check (runes_of_ascii "packet A {
+ u8 x `d" ++ [12288]%N ++ runes_of_ascii "`, // c" ++ [12288]%N ++ runes_of_ascii "
+}")).
+Eval vm_compute in ("<<<M581>>>" ++ check (runes_of_ascii "
+packet
+    asx {match u128")).
+Eval vm_compute in ("<<<M268>>>" ++ check (runes_of_ascii " // packet A { u8 x, }")).
+Eval vm_compute in ("<<<M1873>>>" ++ check (runes_of_ascii "root packet chars {
+}")).
+Eval vm_compute in ("<<<M977>>>" ++ check (runes_of_ascii "// c 
+packet A {
+}")).
+Eval vm_compute in ("<<<M1059>>>" ++ check (runes_of_ascii "packet A {
+}// c x")).
+Eval vm_compute in ("<<<M1227>>>" ++ check (runes_of_ascii "packet
+// c
+x { }")).
+Eval vm_compute in ("<<<M1521>>>" ++ check (runes_of_ascii "// @lengthOf(")).
 Eval vm_compute in ("<<<M1010>>>" ++ check (runes_of_ascii "// c" ++ [8232]%N)).
+Eval vm_compute in ("<<<M734>>>" ++ check ([65279]%N)).
